@@ -347,6 +347,7 @@ func c03FilterWindow(c *Case, rng *Rng) {
 		first = append(first, delivery{1, next})
 	}
 	w.opDeliver(first, rng.Bool(), "deliver")
+	c.Desc = fmt.Sprintf("filter-window: %d queue(s), %d task(s) in queue 1; events delivered from inside the worker's queue dump and from inside the Iterate / Filter callbacks of the handler's compaction", nq, len(first))
 	var dropped []int
 	rounds := rng.Range(1, 3)
 	gate := &dumpGate{}
